@@ -340,7 +340,7 @@ func c16loopSSA(c *core.Ctx, r *core.Report) {
 		n := c2.Call.Signature().Results().Len()
 		okUnb = okUnb && n > 0 && accumulates(c2, n-1)
 	}
-	r.Check(okUnb, "R16.unbounded", "analysis/defers.AnalyzeFunction|accumulate-repeated", c.Pos(transfer.Pos()), "the unbounded verdict accumulates every repeated flag", "the repeated flag is overwritten instead of accumulated: a function with a defer in a loop can be reported bounded")
+	r.Check(okUnb, "R16.unbounded", "analysis/defers.AnalyzeFunction|accumulate-repeated", c.Pos(transfer.Pos()), "the unbounded verdict accumulates every repeated flag", "the unbounded verdict is not the accumulation of the repeated flags the transfer function returns along the fixpoint (the flag is overwritten, or the verdict is computed some other way): the fixpoint meets a defer already on the stack exactly when the defer lies on a cycle - reducible or not (goto) -, so a verdict not derived from it can report a function bounded although it defers in a cycle")
 	c16worklist(c, r, fn)
 }
 
